@@ -559,6 +559,75 @@ theorem getLast?_of_max (l : Store β) (hs : Sorted l) (e : Bytes × β) (he : e
 
 end store
 
+/-! ### point reads after put / erase -/
+
+section store2
+variable {β : Type}
+
+theorem get_put (db : Store β) (k : Bytes) (v : β) (key : Bytes) :
+    get (put db k v) key = if key = k then some v else get db key := by
+  induction db with
+  | nil =>
+    by_cases h : key = k
+    · subst h; simp [put, C09.get]
+    · have : (k == key) = false := by simpa using fun e => h e.symm
+      simp [put, C09.get, h, this]
+  | cons x r ih =>
+    obtain ⟨k', v'⟩ := x
+    simp only [put]
+    split
+    · by_cases h : key = k
+      · subst h; simp [C09.get]
+      · have : (k == key) = false := by simpa using fun e => h e.symm
+        simp [C09.get, List.find?, h, this]
+    · split
+      · rename_i h2
+        subst h2
+        by_cases h : key = k
+        · subst h; simp [C09.get]
+        · have : (k == key) = false := by simpa using fun e => h e.symm
+          simp [C09.get, List.find?, h, this]
+      · rename_i h2
+        by_cases h : key = k
+        · subst h
+          have : (k' == key) = false := by simpa using fun e => h2 e.symm
+          have ih' := ih
+          simp only [C09.get, if_true] at ih'
+          simp [C09.get, List.find?, this, ih']
+        · simp only [h, if_false] at ih ⊢
+          simp only [C09.get, List.find?] at ih ⊢
+          cases hk : (k' == key) with
+          | true => rfl
+          | false => simpa using ih
+
+theorem get_erase (db : Store β) (k key : Bytes) :
+    get (erase db k) key = if key = k then none else get db key := by
+  induction db with
+  | nil => simp [erase, C09.get]
+  | cons x r ih =>
+    simp only [erase, C09.get] at ih ⊢
+    by_cases hx : x.1 = k
+    · have h1 : (x.1 != k) = false := by simpa using hx
+      simp only [List.filter_cons, h1]
+      by_cases h : key = k
+      · simp only [h, if_true] at ih ⊢; exact ih
+      · simp only [h, if_false] at ih ⊢
+        have : (x.1 == key) = false := by simpa [hx] using fun e => h e.symm
+        simp only [List.find?, this]; exact ih
+    · have h1 : (x.1 != k) = true := by simpa using hx
+      simp only [List.filter_cons, h1, if_true]
+      by_cases h : key = k
+      · simp only [h, if_true] at ih ⊢
+        have : (x.1 == k) = false := by simpa using hx
+        simp only [List.find?, this]; exact ih
+      · simp only [h, if_false] at ih ⊢
+        simp only [List.find?]
+        cases (x.1 == key) with
+        | true => rfl
+        | false => exact ih
+
+end store2
+
 /-! ### AddMVCC / DelMVCC on the data region -/
 
 theorem getKey_inj (k k' : Bytes) (i j : Nat) (hi : i < 2 ^ 63) (hj : j < 2 ^ 63)
@@ -614,6 +683,152 @@ theorem mem_applyAdd (db : DB) (n : Nat) (kvs : List (Bytes × Bytes)) (e : Byte
       · right; exact ⟨kv, List.mem_cons_self, h'⟩
       · left; exact h'
     · right; exact ⟨kv', List.mem_cons_of_mem _ hkv', h⟩
+
+/-! ### MVCCIter: last records -/
+
+/-- last write to `key` in a list of writes. -/
+def lastOf (ws : List (Bytes × Bytes)) (key : Bytes) : Option Bytes :=
+  match ws with
+  | [] => none
+  | w :: rest =>
+    match lastOf rest key with
+    | some v => some v
+    | none => if w.1 = key then some w.2 else none
+
+theorem get_foldl_put (ws : List (Bytes × Bytes)) (d0 : DB) (key : Bytes) :
+    get (ws.foldl (fun d w => put d w.1 w.2) d0) key =
+      match lastOf ws key with | some v => some v | none => get d0 key := by
+  induction ws generalizing d0 with
+  | nil => rfl
+  | cons w rest ih =>
+    simp only [List.foldl_cons, ih, lastOf]
+    cases lastOf rest key with
+    | some v => rfl
+    | none =>
+      simp only [get_put]
+      by_cases h : key = w.1
+      · simp [h]
+      · have : ¬ w.1 = key := fun e => h e.symm
+        simp [h, this]
+
+theorem applyAdd_eq_foldl (db : DB) (n : Nat) (kvs : List (Bytes × Bytes)) :
+    applyAdd db n kvs = (kvs.map (fun kv => (getKey kv.1 n, kv.2))).foldl (fun d w => put d w.1 w.2) db := by
+  simp [applyAdd, List.foldl_map]
+
+theorem getKey_inj_key (k k' : Bytes) (n : Nat) (h : getKey k n = getKey k' n) : k = k' := by
+  simp only [getKey] at h
+  have h1 := List.append_cancel_right h
+  have h2 := List.append_cancel_right h1
+  exact List.append_cancel_left h2
+
+theorem lastOf_map_same (kvs : List (Bytes × Bytes)) (k : Bytes) (n : Nat) :
+    lastOf (kvs.map (fun kv => (getKey kv.1 n, kv.2))) (getKey k n) = lastOf kvs k := by
+  induction kvs with
+  | nil => rfl
+  | cons kv rest ih =>
+    simp only [List.map_cons, lastOf, ih]
+    cases lastOf rest k with
+    | some v => rfl
+    | none =>
+      by_cases h : kv.1 = k
+      · simp [h]
+      · have : ¬ getKey kv.1 n = getKey k n := fun e => h (getKey_inj_key _ _ n e)
+        simp [h, this]
+
+theorem lastOf_map_other (kvs : List (Bytes × Bytes)) (k : Bytes) (n j : Nat) (hn : n < 2 ^ 63)
+    (hj : j < 2 ^ 63) (hne : j ≠ n) :
+    lastOf (kvs.map (fun kv => (getKey kv.1 n, kv.2))) (getKey k j) = none := by
+  induction kvs with
+  | nil => rfl
+  | cons kv rest ih =>
+    simp only [List.map_cons, lastOf, ih]
+    have : ¬ getKey kv.1 n = getKey k j := fun e => hne (getKey_inj _ _ n j hn hj e).2.symm
+    simp [this]
+
+theorem get_applyAdd_same (db : DB) (n : Nat) (kvs : List (Bytes × Bytes)) (k : Bytes) :
+    get (applyAdd db n kvs) (getKey k n) =
+      match lastOf kvs k with | some v => some v | none => get db (getKey k n) := by
+  rw [applyAdd_eq_foldl, get_foldl_put, lastOf_map_same]
+
+theorem get_applyAdd_other (db : DB) (n j : Nat) (kvs : List (Bytes × Bytes)) (k : Bytes)
+    (hn : n < 2 ^ 63) (hj : j < 2 ^ 63) (hne : j ≠ n) :
+    get (applyAdd db n kvs) (getKey k j) = get db (getKey k j) := by
+  rw [applyAdd_eq_foldl, get_foldl_put, lastOf_map_other kvs k n j hn hj hne]
+
+theorem get_none_of_below (db : DB) (n j : Nat) (k : Bytes) (hb : Below n db) (hj : j < 2 ^ 63) (hnj : n ≤ j) :
+    get db (getKey k j) = none := by
+  apply (get_eq_none_iff db _).2
+  intro e he heq
+  obtain ⟨k', i, hi, hkey⟩ := hb e he
+  rw [hkey] at heq
+  have := (getKey_inj k' k i j (by omega) hj heq).2
+  omega
+
+theorem specRead_applyAdd_older (db : DB) (n : Nat) (kvs : List (Bytes × Bytes)) (k : Bytes)
+    (hn : n < 2 ^ 63) (m : Nat) (hm : m < n) :
+    specRead (applyAdd db n kvs) k m = specRead db k m := by
+  induction m with
+  | zero => simp only [specRead]; exact get_applyAdd_other db n 0 kvs k hn (by omega) (by omega)
+  | succ m ih =>
+    simp only [specRead]
+    rw [get_applyAdd_other db n (m + 1) kvs k hn (by omega) (by omega), ih (by omega)]
+
+theorem lastOf_none_iff (kvs : List (Bytes × Bytes)) (k : Bytes) :
+    lastOf kvs k = none ↔ k ∉ kvs.map (·.1) := by
+  induction kvs with
+  | nil => simp [lastOf]
+  | cons kv rest ih =>
+    simp only [lastOf, List.map_cons, List.mem_cons, not_or]
+    cases h : lastOf rest k with
+    | some v =>
+      simp only [reduceCtorEq, false_iff, not_and]
+      intro _
+      have : ¬ (k ∉ rest.map (·.1)) := fun hn => by rw [ih.2 hn] at h; cases h
+      exact this
+    | none =>
+      have hr := ih.1 h
+      by_cases hk : kv.1 = k
+      · simp [hk]
+      · have : ¬ k = kv.1 := fun e => hk e.symm
+        simp [hk, this, hr]
+
+/-- the loop of `MVCCIter.DelMVCC` over the keys of the removed version, given that every read it
+makes is right. -/
+theorem iterDelLast_spec (data : DB) (ver : Nat) (hver : ver ≠ 0) (R : Bytes → Option Bytes)
+    (ks : List Bytes) (last : DB)
+    (hread : ∀ k ∈ ks, getV data k (ver - 1) = match R k with | some v => .val v | none => .notfound) :
+    ∃ last2, iterDelLast data ver ks last = .ok last2 ∧
+      ∀ k, get last2 k = if k ∈ ks then R k else get last k := by
+  induction ks generalizing last with
+  | nil => exact ⟨last, rfl, fun k => by simp⟩
+  | cons k0 rest ih =>
+    have hr0 := hread k0 List.mem_cons_self
+    have hrest : ∀ k ∈ rest, getV data k (ver - 1) = match R k with | some v => .val v | none => .notfound :=
+      fun k hk => hread k (List.mem_cons_of_mem _ hk)
+    simp only [iterDelLast, hver, if_false, hr0]
+    cases hR : R k0 with
+    | none =>
+      simp only
+      obtain ⟨l2, h1, h2⟩ := ih (erase last k0) hrest
+      refine ⟨l2, h1, ?_⟩
+      intro k
+      rw [h2 k]
+      by_cases hk : k ∈ rest
+      · simp [hk]
+      · by_cases hk0 : k = k0
+        · subst hk0; simp [hk, get_erase, hR]
+        · simp [hk, hk0, get_erase]
+    | some v =>
+      simp only
+      obtain ⟨l2, h1, h2⟩ := ih (put last k0 v) hrest
+      refine ⟨l2, h1, ?_⟩
+      intro k
+      rw [h2 k]
+      by_cases hk : k ∈ rest
+      · simp [hk]
+      · by_cases hk0 : k = k0
+        · subst hk0; simp [hk, get_put, hR]
+        · simp [hk, hk0, get_put]
 
 /-! ### Trash -/
 
@@ -687,6 +902,101 @@ theorem trash_fold_inv (cut : Nat) (l : List (Bytes × Bytes)) (pfx : Bytes) (de
         · rcases ih _ _ key hkey with h | h
           · left; exact h
           · right; exact shift pfx (fun h' => Or.inl h') h
+
+/-- byte strings between two strings that share the prefix `p` share it too. -/
+theorem prefix_interval (p e y x : Bytes) (he : p <+: e) (hx : p <+: x)
+    (h1 : ble e y = true) (h2 : ble y x = true) : p <+: y := by
+  induction p generalizing e y x with
+  | nil => exact List.nil_prefix
+  | cons c p' ih =>
+    obtain ⟨e', rfl⟩ : ∃ e', e = c :: e' := by
+      obtain ⟨t, ht⟩ := he; exact ⟨p' ++ t, by rw [← ht]; rfl⟩
+    obtain ⟨x', rfl⟩ : ∃ x', x = c :: x' := by
+      obtain ⟨t, ht⟩ := hx; exact ⟨p' ++ t, by rw [← ht]; rfl⟩
+    cases y with
+    | nil => simp [ble] at h1
+    | cons d y' =>
+      simp only [ble] at h1 h2
+      have hcd : ¬ d < c := by
+        intro hlt
+        have : ¬ c < d := by omega
+        simp [this, hlt] at h1
+      have hdc : ¬ c < d := by
+        intro hlt
+        have : ¬ d < c := by omega
+        simp [this, hlt] at h2
+      have hd : d = c := by omega
+      subst hd
+      simp only [hcd, if_false] at h1 h2
+      have he' : p' <+: e' := (List.cons_prefix_cons.1 he).2
+      have hx' : p' <+: x' := (List.cons_prefix_cons.1 hx).2
+      exact List.cons_prefix_cons.2 ⟨rfl, ih e' y' x' he' hx' h1 h2⟩
+
+/-- while every visited record extends the current prefix, `Trash` keeps that prefix and collects
+every visited record whose version is at most the cut. -/
+theorem trash_fold_covered (cut : Nat) (l : List (Bytes × Bytes)) (p : Bytes) (dels : List Bytes)
+    (hall : ∀ a ∈ l, p.isPrefixOf a.1 = true) :
+    (l.foldl (trashStep cut) (p, dels)).1 = p ∧
+    (∀ k ∈ dels, k ∈ (l.foldl (trashStep cut) (p, dels)).2) ∧
+    (∀ a ∈ l, ∀ v, getVersion a.1 = some v → v ≤ Int.ofNat cut → a.1 ∈ (l.foldl (trashStep cut) (p, dels)).2) := by
+  induction l generalizing dels with
+  | nil => exact ⟨rfl, fun k hk => hk, fun a ha => by cases ha⟩
+  | cons a rest ih =>
+    have ha := hall a List.mem_cons_self
+    have hrest := fun b hb => hall b (List.mem_cons_of_mem _ hb)
+    simp only [List.foldl_cons]
+    have hstep : trashStep cut (p, dels) a =
+        (p, match getVersion a.1 with
+            | some v => if v ≤ Int.ofNat cut then a.1 :: dels else dels
+            | none => dels) := by
+      unfold trashStep
+      simp only [ha, Bool.not_true, Bool.false_eq_true, if_false]
+      cases getVersion a.1 with
+      | none => rfl
+      | some v =>
+        by_cases hv : v ≤ Int.ofNat cut
+        · show (if v ≤ Int.ofNat cut then _ else _) = _
+          rw [if_pos hv]; show _ = (p, if v ≤ Int.ofNat cut then _ else _); rw [if_pos hv]
+        · show (if v ≤ Int.ofNat cut then _ else _) = _
+          rw [if_neg hv]; show _ = (p, if v ≤ Int.ofNat cut then _ else _); rw [if_neg hv]
+    rw [hstep]
+    obtain ⟨i1, i2, i3⟩ := ih _ hrest
+    refine ⟨i1, ?_, ?_⟩
+    · intro k hk
+      apply i2
+      cases getVersion a.1 with
+      | none => exact hk
+      | some v =>
+        show k ∈ (if v ≤ Int.ofNat cut then a.1 :: dels else dels)
+        by_cases hv : v ≤ Int.ofNat cut
+        · rw [if_pos hv]; exact List.mem_cons_of_mem _ hk
+        · rw [if_neg hv]; exact hk
+    · intro b hb v hv hle
+      rcases List.mem_cons.1 hb with h | h
+      · subst h
+        apply i2
+        rw [hv]
+        show b.1 ∈ (if v ≤ Int.ofNat cut then b.1 :: dels else dels)
+        rw [if_pos hle]; exact List.mem_cons_self
+      · exact i3 b h v hv hle
+
+theorem trash_fold_mono (cut : Nat) (l : List (Bytes × Bytes)) (st : Bytes × List Bytes) :
+    ∀ k ∈ st.2, k ∈ (l.foldl (trashStep cut) st).2 := by
+  induction l generalizing st with
+  | nil => intro k hk; exact hk
+  | cons a rest ih =>
+    intro k hk
+    simp only [List.foldl_cons]
+    apply ih
+    unfold trashStep
+    simp only
+    split
+    · exact hk
+    · split
+      · exact hk
+      · split
+        · exact List.mem_cons_of_mem _ hk
+        · exact hk
 
 /-! ### reads -/
 
